@@ -201,6 +201,11 @@ def oracle(run, focus, c, ops, real, spec, cj, mal):
                 if focus == "C22":
                     interesting = True
                     run.count("child_state fails (not enclosing)")
+                    if r["state"] != cur or r["temp"] != cur:
+                        run.violate("C22/failed-child_state-changes-state",
+                                    "child_state(%d) failed as it must, but left state=%s temp=%s (current state %s)"
+                                    % (a, r["state"], r["temp"], cur), cj_upto(cj, idx))
+                continue        # the caller caught the AssertionError; the script goes on
             break
         if s is None or s["kind"] != "ok":
             if o == 3 and focus == "C22":
